@@ -825,7 +825,7 @@ def run(ctx):
 
     phase("lattice_laws")
     # ---------------------------------------------------------------- dense
-    n_dense = 6000 if ctx.quick else 150000
+    n_dense = 5000 if ctx.quick else 150000
     corpus_cases = []
     cpath = os.path.join(CORPUS, "dense.txt")
     if os.path.exists(cpath):
@@ -906,7 +906,7 @@ def run(ctx):
 
     phase("dense_compare")
     # ---------------------------------------------------------------- sparse
-    n_sparse = 1500 if ctx.quick else 30000
+    n_sparse = 1000 if ctx.quick else 30000
     sp_lines, sp_srcs = [], []
     spath = os.path.join(CORPUS, "sparse.txt")
     if os.path.exists(spath):
